@@ -415,7 +415,9 @@ def main():
             lines.append("VIOLATION property=%s replay=%s no-failing-input-found" % (pid, "coqchk"))
             exit_code = 1
     if not a.replay:
-        json.dump(ev, open(os.path.join(VERIF, "evidence", pid + ".json"), "w"), indent=1)
+        evdir = os.path.join(VERIF, "evidence") if REPO == "/repo" else os.path.join(BUILD, "evidence-alt")
+        os.makedirs(evdir, exist_ok=True)
+        json.dump(ev, open(os.path.join(evdir, pid + ".json"), "w"), indent=1)
     for l in lines:
         print(l)
     print("%s: tier=%s seed=%d proof_ok=%s theorems=%d evaluations=%d mismatches=%d oracle_failures=%d known=%d wall=%.1fs" % (
